@@ -591,3 +591,144 @@ Proof.
   destruct (map_fields_gen (Ok []) form fs) as [r| |] eqn:E; cbn [omap]; intros H; inversion H; subst.
   eapply map_fields_type. exact E.
 Qed.
+
+(* ---- the state-carrying decoder agrees with the decoder ---- *)
+Definition collapse {A} (p : A * outcome unit) : outcome A :=
+  match snd p with Ok _ => Ok (fst p) | Err => Err | Panic => Panic end.
+
+Lemma set_array_st_agrees over :
+  over = Ok [] \/ over = Panic ->
+  forall vals elems, set_array_gen over elems vals = collapse (set_array_st over elems vals).
+Proof.
+  intros Hover. induction vals as [|s sr IH]; intros elems; destruct elems as [|e er];
+    cbn [set_array_gen set_array_st]; try reflexivity.
+  - destruct Hover as [-> | ->]; reflexivity.
+  - idtac.
+    + destruct (set_with_proper_type e s) as [e'| |]; cbn [obind]; try reflexivity.
+      rewrite (IH er). destruct (set_array_st over er sr) as [r st]. unfold collapse. cbn [fst snd].
+      destruct st; reflexivity.
+Qed.
+
+Lemma set_field_st_agrees over v vals :
+  over = Ok [] \/ over = Panic ->
+  set_field_gen over v vals = collapse (set_field_st over v vals).
+Proof.
+  intros Hover. destruct v; try (unfold set_field_st; destruct (set_field_gen over _ vals); reflexivity).
+  destruct vals as [|s r]; [reflexivity|].
+  cbn [set_field_gen set_field_st]. rewrite (set_array_st_agrees over Hover).
+  destruct (set_array_st over elems (s :: r)) as [es st]. unfold collapse. cbn [fst snd].
+  destruct st; reflexivity.
+Qed.
+
+Lemma map_fields_st_agrees over form :
+  over = Ok [] \/ over = Panic ->
+  forall fs, map_fields_gen over form fs = collapse (map_fields_st over form fs).
+Proof.
+  intros Hover fs.
+  induction fs as [|name tag e v rest IHsub IHrest] using fields_induction.
+  - reflexivity.
+  - assert (Hcont : forall v',
+              omap (FCons name tag e v') (map_fields_gen over form rest) =
+              collapse (let (r, st) := map_fields_st over form rest in (FCons name tag e v' r, st))).
+    { intros v'. rewrite IHrest. destruct (map_fields_st over form rest) as [r st].
+      unfold collapse. cbn [fst snd]. destruct st; reflexivity. }
+    destruct e; [|cbn [map_fields_gen map_fields_st negb]; apply Hcont].
+    destruct (recurses tag v) eqn:R.
+    + apply recurses_true in R as [-> [sub ->]]. cbn [map_fields_gen map_fields_st negb].
+      rewrite (IHsub sub eq_refl). destruct (map_fields_st over form sub) as [sub' st].
+      unfold collapse at 1. cbn [fst snd]. destruct st; cbn [obind]; [apply Hcont | reflexivity | reflexivity].
+    + rewrite map_fields_plain by exact R. cbn zeta.
+      assert (Hst : map_fields_st over form (FCons name tag true v rest) =
+                    let continue := fun v' =>
+                      let (r, st) := map_fields_st over form rest in (FCons name tag true v' r, st) in
+                    match vget form (eff_name name tag) with
+                    | None => continue v
+                    | Some vals =>
+                        match snd (set_field_st over v vals) with
+                        | Ok _ => continue (fst (set_field_st over v vals))
+                        | st => (FCons name tag true (fst (set_field_st over v vals)) rest, st)
+                        end
+                    end).
+      { destruct tag; destruct v; try discriminate R; reflexivity. }
+      rewrite Hst. cbn zeta. destruct (vget form (eff_name name tag)) as [vals|]; [|apply Hcont].
+      rewrite (set_field_st_agrees over v vals Hover).
+      destruct (set_field_st over v vals) as [v' st]. unfold collapse at 1. cbn [fst snd].
+      destruct st; cbn [obind]; [apply Hcont | reflexivity | reflexivity].
+Qed.
+
+Lemma form_unmarshal_st_agrees data fs :
+  form_unmarshal data (TStruct fs) = omap RStruct (collapse (form_unmarshal_struct_st data fs)).
+Proof.
+  unfold form_unmarshal, form_unmarshal_gen, form_unmarshal_struct_st.
+  destruct (parse_query data) as [form|]; [|reflexivity].
+  rewrite (map_fields_st_agrees (Ok []) form (or_introl eq_refl)). reflexivity.
+Qed.
+
+(* ---- even a FAILED decode leaves a value of the destination's type ---- *)
+Lemma set_array_st_length vals : forall elems,
+  length (fst (set_array_st (Ok []) elems vals)) = length elems.
+Proof.
+  induction vals as [|s sr IH]; intros elems; destruct elems as [|e er]; cbn [set_array_st]; try reflexivity.
+  destruct (set_with_proper_type e s) as [e'| |]; try reflexivity.
+  specialize (IH er). destruct (set_array_st (Ok []) er sr) as [r st]. cbn [fst length] in *. congruence.
+Qed.
+
+Lemma set_field_st_type v vals : ftype_rel v (fst (set_field_st (Ok []) v vals)).
+Proof.
+  destruct v; unfold set_field_st.
+  - destruct (set_field_gen (Ok []) (FLeaf l) vals) eqn:E; cbn [fst];
+      [eapply set_field_type; exact E | apply ftype_rel_refl | apply ftype_rel_refl].
+  - destruct (set_field_gen (Ok []) (FSlice proto elems) vals) eqn:E; cbn [fst];
+      [eapply set_field_type; exact E | apply ftype_rel_refl | apply ftype_rel_refl].
+  - destruct vals as [|s r]; [apply ftype_rel_refl|].
+    pose proof (set_array_st_length (s :: r) elems) as Hl.
+    destruct (set_array_st (Ok []) elems (s :: r)) as [es st]. cbn [fst] in *. constructor. exact Hl.
+  - destruct (set_field_gen (Ok []) (FStruct fs) vals) eqn:E; cbn [fst];
+      [eapply set_field_type; exact E | apply ftype_rel_refl | apply ftype_rel_refl].
+Qed.
+
+Lemma map_fields_st_type form fs : fields_rel fs (fst (map_fields_st (Ok []) form fs)).
+Proof.
+  induction fs as [|name tag e v rest IHsub IHrest] using fields_induction.
+  - constructor.
+  - assert (Hcont : forall v', ftype_rel v v' ->
+              fields_rel (FCons name tag e v rest)
+                (fst (let (r, st) := map_fields_st (Ok []) form rest in (FCons name tag e v' r, st)))).
+    { intros v' Hv. destruct (map_fields_st (Ok []) form rest) as [r st]. cbn [fst] in *.
+      constructor; assumption. }
+    assert (Hafter : forall p, ftype_rel v (fst p) ->
+              fields_rel (FCons name tag e v rest)
+                (fst (match snd p with
+                      | Ok _ => let (r, st) := map_fields_st (Ok []) form rest in (FCons name tag e (fst p) r, st)
+                      | st => (FCons name tag e (fst p) rest, st)
+                      end))).
+    { intros p Hp. destruct (snd p); [apply Hcont; exact Hp | |];
+        cbn [fst]; (constructor; [exact Hp | apply fields_rel_refl]). }
+    destruct e; [|cbn [map_fields_st negb]; apply Hcont, ftype_rel_refl].
+    destruct (recurses tag v) eqn:R.
+    + apply recurses_true in R as [-> [sub ->]]. cbn [map_fields_st negb].
+      specialize (IHsub sub eq_refl). destruct (map_fields_st (Ok []) form sub) as [sub' st].
+      apply (Hafter (FStruct sub', st)). cbn [fst] in *. constructor. exact IHsub.
+    + assert (Hst : map_fields_st (Ok []) form (FCons name tag true v rest) =
+                    match vget form (eff_name name tag) with
+                    | None => let (r, st) := map_fields_st (Ok []) form rest in (FCons name tag true v r, st)
+                    | Some vals =>
+                        match snd (set_field_st (Ok []) v vals) with
+                        | Ok _ => let (r, st) := map_fields_st (Ok []) form rest in
+                                  (FCons name tag true (fst (set_field_st (Ok []) v vals)) r, st)
+                        | st => (FCons name tag true (fst (set_field_st (Ok []) v vals)) rest, st)
+                        end
+                    end).
+      { destruct tag; destruct v; try discriminate R; reflexivity. }
+      rewrite Hst. destruct (vget form (eff_name name tag)) as [vals|].
+      * apply (Hafter (set_field_st (Ok []) v vals)). apply set_field_st_type.
+      * apply Hcont, ftype_rel_refl.
+Qed.
+
+Lemma form_failed_decode_keeps_type_lemma data fs :
+  fields_rel fs (fst (form_unmarshal_struct_st data fs)).
+Proof.
+  unfold form_unmarshal_struct_st. destruct (parse_query data) as [form|].
+  - apply map_fields_st_type.
+  - apply fields_rel_refl.
+Qed.
